@@ -8,7 +8,7 @@ EXPLANATION = ('C05: total intensity over one full period equals the input power
                'amplitude/OPD/wavelength/focal length/input pixel scale and the output pixel scale tied to them so that 1/alpha = N exactly; '
                'roots of unity are atoms constrained by linear theorems (subgroup/coset sums vanish) and z3 decides the Parseval identity.')
 BOUNDS = {
-    'quick': 'periods N_r, N_c in 1..5 independently; pupil <= min(3, N) per axis; oversample in {1,2,3} dividing N; nested windows for pupils <= 2x2; normalize_power on <= 3x3',
+    'quick': 'periods N_r, N_c in 1..5 independently; pupil <= min(3, N) per axis, whole or as two equal-shape segments; oversample in {1,2,3} dividing N; nested windows for pupils <= 2x2; normalize_power on <= 3x3',
     'thorough': 'periods up to 8 per axis; pupil <= min(4, N); all nested centred windows',
 }
 ASSUMPTIONS = ['1/alpha is an integer N >= pupil size on each axis (the property\'s commensurate regime); sum |a|^2 > 0 for normalize_power',
@@ -32,6 +32,12 @@ def cfg_full(tier, seed):
                     if (Nr % os or Nc % os) and method == 'dft':
                         continue            # the DFT propagator's output shape is shape*oversample: a full period needs N divisible by it
                     out.append({'N': [Nr, Nc], 'n': [nr, nc], 'os': os, 'method': method})
+                    # the same aperture as two equal-shape segment masks (several input fields at non-zero offsets)
+                    if method == 'dft' and Nr * Nc <= (16 if tier == 'quick' else 36):
+                        if nc % 2 == 0:
+                            out.append({'N': [Nr, Nc], 'n': [nr, nc], 'os': os, 'method': method, 'seg': 'cols'})
+                        if nr % 2 == 0:
+                            out.append({'N': [Nr, Nc], 'n': [nr, nc], 'os': os, 'method': method, 'seg': 'rows'})
     return out, len(out), True
 
 
@@ -47,7 +53,16 @@ def _setup(W, cfg):
     dx = (W.real('dxr', pos=True), W.real('dxc', pos=True))
     # output pixel scale such that alpha = dx*du/(lam*f*os) = 1/N on each axis
     du = (lam * f * os / (Nr * dx[0]), lam * f * os / (Nc * dx[1]))
-    pupil = lt.Pupil(amplitude=A, opd=O, pixelscale=dx, focal_length=f, mask=rnp.ones((nr, nc), dtype=int))
+    mask = rnp.ones((nr, nc), dtype=int)
+    if cfg.get('seg'):
+        mask = rnp.zeros((2, nr, nc), dtype=int)
+        if cfg['seg'] == 'cols':
+            mask[0, :, :nc // 2] = 1
+            mask[1, :, nc // 2:] = 1
+        else:
+            mask[0, :nr // 2, :] = 1
+            mask[1, nr // 2:, :] = 1
+    pupil = lt.Pupil(amplitude=A, opd=O, pixelscale=dx, focal_length=f, mask=mask)
     w = lt.Wavefront(lam) * pupil
     power = W.sum(A[i, j] * A[i, j] for i in range(nr) for j in range(nc))
     return lt, w, du, power, A
